@@ -173,6 +173,7 @@ file_t *file_build(int id,int nlinks,link_t **links,layout_t *lay){
     int cyc=0, onpage=0; int natural=(y->nppp==0 || (y->nppp==1 && y->ppp[0]==0));
     for(int i=0;i<L->npk;i++){
       pkt_t *p=&L->pk[i];
+      if(i>=3 && y->noaud && L->nref==0) break;     /* headers only: no audio packet at all */
       ogg_packet op; memset(&op,0,sizeof op);
       unsigned char *tmp=NULL; op.packet=p->data; op.bytes=p->bytes;
       if(i>=3) for(int k=0;k<y->npad;k++) if(y->padpkt[k]==i-3 && y->padbytes[k]>p->bytes){ tmp=calloc(1,y->padbytes[k]); memcpy(tmp,p->data,p->bytes); op.packet=tmp; op.bytes=y->padbytes[k]; }
